@@ -40,18 +40,22 @@ PROPS = {
         assumptions=["plans that put other injections inside a replaced region, or delete structural instructions with plain alternate, are outside the domain (still compared with the mirror model)"],
     ),
     "C22": dict(
-        engine="lowering", check_targets=["Check/CheckLow.vo"], proof_targets=["Props/C22.vo"],
-        theorems=[("C22", "C22_rejected_at_the_call"), ("C22", "C22_accepted_otherwise"), ("C22", "C22_accepted_reports_special"), ("C22", "C22_no_special_probe_is_lost")],
+        engine="lowering", check_targets=["Check/CheckLow.vo"], proof_targets=["Props/C22.vo"], gen=["GenAddInstr"],
+        theorems=[("C22", "C22_rejected_at_the_call"), ("C22", "C22_accepted_otherwise"), ("C22", "C22_accepted_reports_special"),
+                  ("C22", "C22_translated_add_instr_is_the_model"), ("C22", "C22_applicability_lists_are_the_model"), ("C22", "C22_no_special_probe_is_lost")],
         quick=dict(n=1600), thorough=dict(n=40000), per_shard=400,
         rule="random bodies with plans over all seven modes plus function entry/exit, through all four API paths, occasionally with an unused import deleted before encoding; every probe "
              "carries unique marker constants; non-trivial = at least one special-mode or function-level injection",
-        level_text="Proof on the mirror: rejection at the call for inapplicable instructions, acceptance otherwise, the 'special' report of add_instr (all operators, modes, flags), and "
+        level_text="Proof on the mirror: rejection at the call for inapplicable instructions, acceptance otherwise, the 'special' report of add_instr (all operators, modes, flags) -- the mirror of InstrumentationFlag::add_instr being "
+                   "proved equal to the translation of its source (Gen/GenAddInstr.v, regenerated from /repo/src/ir/types.rs on every check; is_block_style_op / is_branching_op as operator lists) --, and "
                    "C22_no_special_probe_is_lost: for every body and every plan without replacements outside the D16-D18 shapes (semantic-after on branch instructions), the block-entry / block-exit / semantic-after code of every construct and the function entry / exit code occur "
                    "in the emitted body (Proofs/NoLoss.v over the flattening theorem). With replacements and on the real output the statement (every accepted special injection outside a removed region is reflected, every one inside a removed region or on the replaced opener disappears with it, no BUG log line) "
                    "is decided per case in Coq. Known class D16 (D19 and D20 were repaired by fix: commits).",
         level_note="Trusted: Coq kernel + vm_compute; the harness (markers, log capture). Modelled, not verified: the injection paths, resolve_special_instrumentation, emission.",
         technique="Coq lemmas on the API model + in-Coq marker check on the real output + refutation witnesses",
-        design_ref="5/C22", trusted_base=LOW_TB, modelled="add_instr, the four API paths, resolve_special_instrumentation, emission",
+        design_ref="5/C22", trusted_base=LOW_TB + ["translator/src/addinstr.rs (GenAddInstr): one Gallina arm per arm of `match self.current_mode` in InstrumentationFlag::add_instr "
+                                                      "(push on a list field, the None / Some match on an optional list, the applicability test with its panicking else branch, the boolean result) and the operator lists of the two "
+                                                      "matches!() predicates; trusted: the mapping of field names to the record fields of Model/Flat.v and of operator names to the model's operator constructors (fop_names)"], modelled="add_instr, the four API paths, resolve_special_instrumentation, emission",
         assumptions=["'reflected' = every marker constant of the probe occurs in the encoded body; 'disappears' = none of them occurs (marker constants are unique per probe)"],
     ),
 }
